@@ -493,23 +493,22 @@ Proof.
   unfold PoolLayout.check_params, Gen_MemPoolConst.CheckBlockCount, Gen_MemPoolConst.CheckBlockAlignment, Gen_MemPoolConst.CorrectBlockSize.
   assert ((0 <? C) && (C <? 128) = true) as -> by (apply andb_true_intro; split; [apply Z.ltb_lt|apply Z.ltb_lt]; lia).
   assert ((0 <? al) && (al <=? 1024) = true) as -> by (apply andb_true_intro; split; [apply Z.ltb_lt|apply Z.leb_le]; lia).
-  simpl andb.
+  rewrite !andb_true_l.
   destruct (Z.eqb_spec C 1) as [E1|E1].
-  - simpl orb. rewrite !andb_true_r.
+  - rewrite !orb_true_l. rewrite !andb_true_r.
     rewrite Z.gtb_ltb. destruct (Z.ltb_spec 0 bs).
     + assert (0 <? bs = true) as -> by (apply Z.ltb_lt; lia). simpl. apply Hmax. change (2 ^ 49) with 562949953421312. lia.
     + simpl. apply Hmax. change (2 ^ 49) with 562949953421312. lia.
-  - simpl orb. destruct (Z.leb_spec bs al).
+  - rewrite !orb_false_l. destruct (Z.leb_spec bs al).
     + rewrite wrapU_small by (rewrite two64; lia).
       assert (0 <? 2 * al = true) as -> by (apply Z.ltb_lt; lia).
-      replace (2 * al) with (2 * al + 0) at 1 by ring. rewrite Z.mul_comm at 1. rewrite Z.add_comm, Z.mod_add by lia.
-      rewrite Z.mod_0_l by lia. simpl (0 =? 0).
-      rewrite Z.div_mul by lia. simpl (2 <=? 2). simpl andb. apply Hmax. change (2 ^ 49) with 562949953421312. lia.
+      rewrite Z.mod_mul by lia. simpl (0 =? 0).
+      rewrite Z.div_mul by lia. simpl (2 <=? 2). rewrite !andb_true_l. apply Hmax. change (2 ^ 49) with 562949953421312. lia.
     + destruct (Ceil_spec bs al ltac:(lia) ltac:(lia) ltac:(rewrite two64; lia)) as (k & Ek & Hk).
       rewrite Ek. assert (2 <= k) by nia.
       assert (0 <? al * k = true) as -> by (apply Z.ltb_lt; nia).
       rewrite (Z.mul_comm al k). rewrite Z.mod_mul by lia. simpl (0 =? 0).
-      rewrite Z.div_mul by lia. assert (2 <=? k = true) as -> by (apply Z.leb_le; lia). simpl andb.
+      rewrite Z.div_mul by lia. assert (2 <=? k = true) as -> by (apply Z.leb_le; lia). rewrite !andb_true_l.
       apply Hmax. change (2 ^ 49) with 562949953421312. nia.
 Qed.
 
@@ -533,19 +532,20 @@ Proof.
   intros L (Hb0 & Hbg & Hbe). destruct (legal_m C B A L) as (Hm & EB). destruct L as (HC & HA & _ & _ & Hs).
   destruct (new_buffer_layout_spec C B A (B / A) HA Hm EB HC Hs begin Hb0 Hbg Hbe) as (fb & first & buffer & E & LO & Hoff).
   exists fb, first, buffer. split; [exact E|]. split; [exact Hoff|].
-  split; [exact (laid_out_first_range C B A (B / A) HC _ _ _ _ LO)|].
-  split; [exact (first_block C B A (B / A) HA Hm EB HC Hs _ _ _ _ LO)|].
-  destruct (layout_geometry C B A (B / A) HA Hm EB HC Hs _ _ _ _ LO) as (G1 & G2).
+  split; [eapply laid_out_first_range; eassumption|].
+  split; [eapply first_block; eassumption|].
+  assert (let size := Gen_MemPool.pvGetBufferSize C B A in _) as G by (eapply layout_geometry; eassumption).
+  cbv zeta in G. destruct G as (G1 & G2).
   cbv zeta. split; [|exact G2].
   intros j Hj. destruct (G1 j Hj) as (a1 & a2 & a3 & a4 & a5).
-  destruct (block_explicit C B A (B / A) HA Hm EB HC Hs _ _ _ _ j LO Hj) as (R & _).
+  assert (-128 <= first + j <= 127) as R by (eapply block_explicit; eassumption).
   repeat split; try assumption; try lia.
-  exact (blockindex_roundtrip C B A (B / A) HA Hm EB HC Hs _ _ _ _ j LO Hj).
+  eapply blockindex_roundtrip; eassumption.
 Qed.
 
 (* ---------- single-block pools (blockCount = 1, alignment above the manager's): pvNewBlock1 / pvDeleteBlock1 ---------- *)
 Theorem block1_layout_thm B A buffer :
-  1 <= A <= 1024 -> 0 < B < 2 ^ 62 -> begin_ok A (Gen_MemPool.pvGetBufferSize1 B A) buffer ->
+  1 <= A <= 1024 -> 0 < B < 2 ^ 62 -> begin_ok A (Gen_MemPool.pvGetBufferSize1 B A) buffer -> buffer + A < 2 ^ 64 ->
   exists block,
     PoolLayout.new_block1_layout B A buffer = Ok (block, block + B, block - buffer) /\
     block mod A = 0 /\ buffer <= block /\
@@ -553,8 +553,8 @@ Theorem block1_layout_thm B A buffer :
     block - buffer < 65536 /\
     (forall ld, ld (block + B) = block - buffer -> Gen_MemPool.pvDeleteBlock1 ld B A block = (block - buffer, buffer)).
 Proof.
-  intros HA HB (Hb0 & Hbg & Hbe). destruct (addend_facts A HA) as (Had & _ & _).
-  change (2 ^ 62) with 4611686018427387904 in HB. rewrite two64 in Hbe.
+  intros HA HB (Hb0 & Hbg & Hbe) Htop. destruct (addend_facts A HA) as (Had & _ & _).
+  change (2 ^ 62) with 4611686018427387904 in HB. rewrite two64 in Hbe, Htop.
   assert (Gen_MemPool.pvGetBufferSize1 B A = B + addend A + 2) as ES.
   { unfold Gen_MemPool.pvGetBufferSize1. rewrite addend_indep.
     rewrite (wrapU_small 64 (B + addend A)) by (rewrite two64; lia). rewrite wrapU_small by (rewrite two64; lia). reflexivity. }
